@@ -96,4 +96,89 @@ theorem fix_ascii (s enc : Str) (h : ∀ c ∈ s, c.toNat < 128) (hc : (codecOf 
 
 theorem sget?_single (k v : Str) : sget? [(k, v)] k = some v := by simp [sget?]
 
+theorem fix_error (s enc : Str) (x : HErr) (hx : fix s enc = .error x) :
+    x = .unicodeError ∨ (codecOf enc = none ∧ x = .lookupError) := by
+  unfold fix at hx
+  split at hx
+  · cases hx; exact Or.inl rfl
+  · unfold decodeWith at hx
+    split at hx
+    · cases hx
+    · cases hcod : codecOf enc with
+      | none => rw [hcod] at hx; cases hx; exact Or.inr ⟨rfl, rfl⟩
+      | some cd =>
+        rw [hcod] at hx
+        cases cd with
+        | utf8 => simp only at hx; split at hx <;> cases hx; exact Or.inl rfl
+        | latin1 => cases hx
+        | ascii => simp only at hx; split at hx <;> cases hx; exact Or.inl rfl
+
+theorem decodeGo_error (enc : Str) (items acc : List (Str × Str)) (x : HErr) (hx : decodeGo enc items acc = .error x) :
+    x = .unicodeError ∨ (codecOf enc = none ∧ x = .lookupError) := by
+  induction items generalizing acc with
+  | nil => cases hx
+  | cons p r ih =>
+    obtain ⟨k, v⟩ := p
+    unfold decodeGo at hx
+    cases hv : fix v enc with
+    | error y => rw [hv] at hx; cases hx; exact fix_error v enc _ hv
+    | ok v' =>
+      rw [hv] at hx
+      cases hk : fix k enc with
+      | error y => rw [hk] at hx; cases hx; exact fix_error k enc _ hk
+      | ok k' => rw [hk] at hx; exact ih _ hx
+
+theorem cookiedict_getunicode_ok (c : CD) (henc : (codecOf c.enc).isSome = true) (name : Str) (d : Option Str := none) :
+    ∃ r, cdGetunicode c name d none = .ok r := by
+  unfold cdGetunicode
+  simp only [Option.getD_none]
+  cases hg : cdGetitem c name with
+  | error y =>
+    have : y = .keyError := by
+      unfold cdGetitem at hg; split at hg <;> cases hg; rfl
+    subst this; exact ⟨_, rfl⟩
+  | ok v =>
+    simp only
+    cases hf : fix v c.enc with
+    | ok s => exact ⟨_, rfl⟩
+    | error y =>
+      rcases fix_error v c.enc y hf with rfl | h
+      · exact ⟨_, rfl⟩
+      · rw [h.1] at henc; cases henc
+
+
+section
+open Ombott.Qs
+/-- what every accessor answers on the dictionary a form with the submitted pairs `ps` reads as -/
+theorem accessors_on_group (ps : List (Str × Str)) (k : Str) (dflt : Option Val) :
+    fdGetitem (group ps) k = (if k ∈ ps.map (·.1) then .ok (valOf (valuesOf k ps)) else .error .keyError) ∧
+    fdGet (group ps) k dflt = (if k ∈ ps.map (·.1) then some (valOf (valuesOf k ps)) else dflt) ∧
+    fdContains (group ps) k = decide (k ∈ ps.map (·.1)) ∧
+    fdKeys (group ps) = firstKeys ps ∧ fdLen (group ps) = (firstKeys ps).length ∧ fdCopy (group ps) = group ps := by
+  have hg := group_get? ps k
+  have hiff := valuesOf_eq_nil_iff ps k
+  refine ⟨?_, ?_, ?_, group_keys ps, ?_, rfl⟩
+  · unfold fdGetitem
+    rw [hg]
+    by_cases h : k ∈ ps.map (·.1)
+    · have : ¬ valuesOf k ps = [] := fun e => (hiff.mp e) h
+      simp [h, this]
+    · simp [h, hiff.mpr h]
+  · unfold fdGet
+    rw [hg]
+    by_cases h : k ∈ ps.map (·.1)
+    · have : ¬ valuesOf k ps = [] := fun e => (hiff.mp e) h
+      simp [h, this]
+    · simp [h, hiff.mpr h]
+  · unfold fdContains
+    rw [hg]
+    by_cases h : k ∈ ps.map (·.1)
+    · have : ¬ valuesOf k ps = [] := fun e => (hiff.mp e) h
+      simp [h, this]
+    · simp [h, hiff.mpr h]
+  · unfold fdLen
+    rw [← group_keys ps, List.length_map]
+
+end
+
 end Ombott.FormsDict
